@@ -4,6 +4,7 @@ import (
 	"go/constant"
 	"go/token"
 	"go/types"
+	"regexp"
 	"strings"
 
 	"mrocheck/an"
@@ -744,6 +745,8 @@ func ruleMembersAll(c *an.Ctx, rule string) {
 // looks for chnk0..chnk9, finds nothing, and runs every completed chunk again.
 // Rule: all calls of NewChunk in package core pass a width obtained from util.WidthForInt applied
 // to the same expression shape.
+var lenArgRe = regexp.MustCompile(`len\([^()]*\)`)
+
 func ruleChunkWidth(c *an.Ctx, rule string) {
 	p := c.P
 	nc := p.Func(pkgCore, "NewChunk")
@@ -765,7 +768,11 @@ func ruleChunkWidth(c *an.Ctx, rule string) {
 			}
 			shape := "?"
 			if wc, ok := an.Strip(args[3]).(*ssa.Call); ok && wc.Call.StaticCallee() != nil && wc.Call.StaticCallee().Name() == "WidthForInt" && len(wc.Call.Args) == 1 {
-				shape = "WidthForInt(" + an.StablePath(wc.Call.Args[0]) + ")"
+				// only the arithmetic around the length matters, not how the list is named
+				// (a field path in one place, a parameter of an extracted helper in another)
+				shape = "WidthForInt(" + lenArgRe.ReplaceAllString(an.StablePath(wc.Call.Args[0]), "len(list)") + ")"
+			} else if _, isPrm := an.Strip(args[3]).(*ssa.Parameter); isPrm {
+				continue // the width is computed by the callers of this helper
 			} else {
 				shape = an.StablePath(args[3])
 			}
@@ -924,9 +931,35 @@ func ruleOrphanReset(c *an.Ctx, rule string) {
 		}
 		return false
 	}
+	// v false implies "the node is not local": node.local itself, or a short-circuit `a || node.local`
+	// kept in a local variable (a phi whose other incoming values are the constant true)
+	var falseMeansNotLocal func(v ssa.Value, d int) bool
+	falseMeansNotLocal = func(v ssa.Value, d int) bool {
+		if v == nil || d > 3 {
+			return false
+		}
+		if an.LoadsField(v, local) {
+			return true
+		}
+		ph, ok := v.(*ssa.Phi)
+		if !ok {
+			return false
+		}
+		some := false
+		for _, e := range ph.Edges {
+			if cv, isC := e.(*ssa.Const); isC && cv.Value != nil && cv.Value.String() == "true" {
+				continue
+			}
+			if !falseMeansNotLocal(e, d+1) {
+				return false
+			}
+			some = true
+		}
+		return some
+	}
 	notLocal := func(from, to *ssa.BasicBlock) bool {
 		return an.EdgeHolds(from, to, func(r an.Rel) bool {
-			return r.Op == token.ILLEGAL && !r.Truth && an.LoadsField(r.X, local)
+			return r.Op == token.ILLEGAL && !r.Truth && falseMeansNotLocal(r.X, 0)
 		})
 	}
 	n := 0
@@ -1314,4 +1347,815 @@ func fnPkgPath(f *ssa.Function) string {
 		return o.Pkg.Pkg.Path()
 	}
 	return ""
+}
+
+// ---------------------------------------------------------------------------
+// Round 7
+// ---------------------------------------------------------------------------
+
+// P7 (C08): the work done per syntax node does not grow with the rest of the input.  After parsing,
+// compileComments hands the comments that are still unattached to attachComments once per AST
+// node.  Sizing a buffer for "all remaining comments" on every call makes a file of N declarations
+// followed by N comment lines cost N*N (750 KB of valid input: 11 s, 1 GB allocated).
+// Rule: attachComments (and its private helpers) allocates no slice whose length or capacity is the
+// length of its slice parameter.
+func ruleP7(c *an.Ctx) {
+	p := c.P
+	fn := p.Func(pkgSyntax, "attachComments")
+	if fn == nil {
+		c.Info("P7", "anchor(attachComments)", 0, "not found: not decided")
+		return
+	}
+	n := 0
+	for _, m := range familyOf(p, fn, 1) {
+		an.Instrs(m, func(in ssa.Instruction) {
+			ms, ok := in.(*ssa.MakeSlice)
+			if !ok {
+				return
+			}
+			n++
+			prop := func(v ssa.Value) bool {
+				args, isLen := an.IsBuiltinCall(an.Strip(v), "len")
+				if !isLen {
+					return false
+				}
+				_, isPrm := args[0].(*ssa.Parameter)
+				return isPrm
+			}
+			c.Check("P7", "per-node-buffer-not-sized-for-the-remaining-input@"+an.FnName(m), in.Pos(), !prop(ms.Len) && !prop(ms.Cap),
+				"a function that runs once per syntax node allocates a slice sized by the number of comments still unattached: N declarations followed by N comment lines cost N*N time and memory (parsing out of proportion to the input size)")
+		})
+	}
+	if n == 0 {
+		c.Pass("P7", "per-node-buffer-not-sized-for-the-remaining-input@attachComments", fn.Pos(), "attachComments allocates no slice up front")
+	}
+}
+
+// M11 (C05, C13): what is recorded for a symlinked output does not depend on how far an earlier,
+// interrupted post-processing run got.  For an output that is a symlink, copyOutSymlink records
+// the link's destination and puts a link into outs/.  mrp runs post-processing again after a
+// restart; if "outs/<name> already exists" short-cuts to recording outs/<name> itself, the final
+// _outs of the resumed run differs from that of an uninterrupted run.
+// Rule: copyOutSymlink writes no value that derives from GetOutFilename() into the buffer.
+func ruleM11(s *c13) {
+	c := s.c
+	fn := c.P.Func(pkgCore, "copyOutSymlink")
+	if fn == nil {
+		c.Info("M11", "anchor(copyOutSymlink)", 0, "not found: not decided")
+		return
+	}
+	fromOut := func(v ssa.Value) bool {
+		seen := map[ssa.Value]bool{}
+		var rec func(v ssa.Value, d int) bool
+		rec = func(v ssa.Value, d int) bool {
+			if v == nil || seen[v] || d > 10 {
+				return false
+			}
+			seen[v] = true
+			if cl, ok := v.(*ssa.Call); ok {
+				if f := cl.Call.StaticCallee(); f != nil && f.Name() == "GetOutFilename" {
+					return true
+				}
+			}
+			if sl, ok := v.(*ssa.Slice); ok {
+				for _, e := range variadicElems(sl) {
+					if rec(e, d+1) {
+						return true
+					}
+				}
+			}
+			if in, ok := v.(ssa.Instruction); ok {
+				for _, op := range in.Operands(nil) {
+					if op != nil && *op != nil && rec(*op, d+1) {
+						return true
+					}
+				}
+			}
+			return false
+		}
+		return rec(v, 0)
+	}
+	n := 0
+	an.Instrs(fn, func(in ssa.Instruction) {
+		bw := s.classify(in)
+		if bw == nil {
+			return
+		}
+		n++
+		c.Check("M11", "symlinked-output-recorded-by-its-destination@copyOutSymlink", in.Pos(), !fromOut(bw.data),
+			"copyOutSymlink writes a value built from the output's name under outs/ instead of the symlink's destination: when outs/<name> already exists (post-processing interrupted and resumed) the recorded value differs from that of an uninterrupted run")
+	})
+	c.Floor("M11", "buffer writes in copyOutSymlink", n, 2)
+}
+
+// M12 (C13): the element of a multi-dimensional array keeps the remaining dimensions.  The type
+// table represents txt[][] as one ArrayType{Elem: txt, Dim: 2}; a function that walks the value
+// one array level at a time must type the elements as "Elem with Dim-1 dimensions".  Taking
+// ArrayType.Elem for the element type handed each inner array to the file mover ("cannot unmarshal
+// array into string"): outs/ stayed empty.
+// Rule: every post-processing function that reads ArrayType.Elem also reads ArrayType.Dim.
+func ruleM12(s *c13) {
+	c := s.c
+	p := c.P
+	elem := p.Field(pkgSyntax, "ArrayType", "Elem")
+	dim := p.Field(pkgSyntax, "ArrayType", "Dim")
+	if elem == nil || dim == nil {
+		return
+	}
+	n := 0
+	var fns []*ssa.Function
+	for _, f := range p.FuncsOf(pkgCore) {
+		if f.Parent() == nil && strings.Contains(p.Pos(f.Pos()), "post_process.go") {
+			fns = append(fns, f)
+		}
+	}
+	for _, fn := range fns {
+		readsElem, readsDim := false, false
+		var pos token.Pos
+		for _, g := range an.WithAnon(fn) {
+			an.Instrs(g, func(in ssa.Instruction) {
+				if fa, ok := in.(*ssa.FieldAddr); ok {
+					if _, f := an.FieldOfAddr(fa); f == elem {
+						readsElem = true
+						if pos == token.NoPos {
+							pos = in.Pos()
+						}
+					} else if f == dim {
+						readsDim = true
+					}
+				}
+			})
+		}
+		if !readsElem {
+			continue
+		}
+		n++
+		c.Check("M12", "array-element-type-keeps-remaining-dimensions@"+an.FnName(fn), pos, readsDim,
+			"the function types the elements of an array value by ArrayType.Elem without looking at ArrayType.Dim: for txt[][] every inner array is treated as a single file, nothing is moved to outs/ and _outs stays unchanged")
+	}
+	c.Floor("M12", "post-processing functions that read ArrayType.Elem", n, 1)
+}
+
+// S11 (C15): the source compared at re-attach has had the same treatment as the source recorded at
+// start.  InvokePipeline expands environment variables in the invocation before writing
+// _invocation; re-attach with the invocation file compares the supplied source with that record
+// byte for byte.  Without the same expansion on the supplied side an unchanged invocation that
+// mentions $VAR can never be re-attached (also not by mrp's own auto-retry).
+// Rule: if the function that writes the invocation file applies os.ExpandEnv, reattachToPipestance
+// (or a private helper) applies it too.
+func ruleS11(c *an.Ctx) {
+	p := c.P
+	inv := p.Func(pkgCore, "(*Runtime).InvokePipeline")
+	re := p.Func(pkgCore, "(*Runtime).reattachToPipestance")
+	if inv == nil || re == nil {
+		c.Info("S11", "anchor(InvokePipeline/reattachToPipestance)", 0, "not found: not decided")
+		return
+	}
+	expands := func(x ssa.Instruction) bool {
+		_, ok := an.IsPkgFuncCall(x, "os", "ExpandEnv")
+		return ok
+	}
+	if !an.MayDo(inv, expands, 2) {
+		c.Pass("S11", "recorded-and-compared-source-treated-alike", inv.Pos(), "the invocation is recorded without environment expansion")
+		return
+	}
+	ok := false
+	for _, m := range familyOf(p, re, 2) {
+		if an.MayDo(m, expands, 0) {
+			ok = true
+		}
+	}
+	c.Check("S11", "recorded-and-compared-source-treated-alike@(*Runtime).reattachToPipestance", re.Pos(), ok,
+		"InvokePipeline records the invocation after os.ExpandEnv, but the re-attach comparison never expands the supplied source: an unchanged invocation that mentions an environment variable differs from its own record and is refused for ever")
+}
+
+// X9 (C03): static fork enumeration never writes through the fork-id part it was handed.
+// MakeForkIds builds the cartesian product of the fork roots; the forks of one product share a
+// placeholder *ForkSourcePart per root until expandStaticForkPart resolves it for one fork - into
+// a COPY.  Writing the resolution (index, range, "empty") into the shared part resolves it for
+// every fork that still points to it: with `[[], [1, 2]]` the empty first element disabled the
+// forks of the second.
+// Rule: in the static expansion functions no store goes through a *ForkSourcePart parameter.
+func ruleX9(c *an.Ctx) {
+	p := c.P
+	root := p.Func(pkgCore, "(ForkId).expandStaticForkPart")
+	if root == nil {
+		c.Info("X9", "anchor((ForkId).expandStaticForkPart)", 0, "not found: not decided")
+		return
+	}
+	n := 0
+	for _, m := range familyOf(p, root, 2) {
+		for _, prm := range m.Params {
+			pt, ok := prm.Type().(*types.Pointer)
+			if !ok {
+				continue
+			}
+			nm, ok := pt.Elem().(*types.Named)
+			if !ok || nm.Obj().Name() != "ForkSourcePart" {
+				continue
+			}
+			n++
+			var bad ssa.Instruction
+			an.Instrs(m, func(in ssa.Instruction) {
+				st, ok := in.(*ssa.Store)
+				if !ok || bad != nil {
+					return
+				}
+				if base, _ := an.FieldOfAddr(st.Addr); base == ssa.Value(prm) {
+					bad = in
+				}
+			})
+			pos := m.Pos()
+			if bad != nil {
+				pos = bad.Pos()
+			}
+			c.Check("X9", "shared-static-part-resolved-in-a-copy("+prm.Name()+")@"+an.FnName(m), pos, bad == nil,
+				"the static fork enumeration writes the resolution of a fork-id part into the part it was handed instead of a copy: that part is shared by every fork of the cartesian product that has not been expanded yet, so an empty inner collection at an earlier index marks the forks of a later, non-empty one as empty and their jobs never run")
+		}
+	}
+	c.Floor("X9", "fork-id part parameters in the static expansion", n, 1)
+}
+
+// R3c / J8 (C05, C11): attempts are numbered by an ORDER, not by inequality with the last one.  The
+// uniquifier of a reset attempt separates its directory and journal name from every earlier
+// attempt's.  Within one second the clock does not help; a generator that only makes sure the new
+// value differs from the previous one produces T, T+1, T for three attempts and hands the third
+// attempt the first attempt's name.
+// Rule: makeUniquifier compares (<, <=, >, >=) a value derived from the previous uniquifier with
+// one derived from the clock.
+func ruleUniqOrder(c *an.Ctx, rule string) {
+	p := c.P
+	fn := p.Func(pkgCore, "makeUniquifier")
+	if fn == nil || len(fn.Params) == 0 {
+		c.Info(rule, "anchor(makeUniquifier)", 0, "not found or without a previous-value parameter: not decided")
+		return
+	}
+	prev := fn.Params[0]
+	// values derived from prev: through Sscanf destinations (allocs passed to a call that also takes prev)
+	fromPrev := map[ssa.Value]bool{prev: true}
+	an.Instrs(fn, func(in ssa.Instruction) {
+		cl := an.AsCallAny(in)
+		if cl == nil {
+			return
+		}
+		uses := false
+		var all []ssa.Value
+		for _, a := range cl.Common().Args {
+			all = append(all, a)
+			if sl, ok := a.(*ssa.Slice); ok {
+				all = append(all, variadicElems(sl)...)
+			}
+		}
+		for _, a := range all {
+			if an.Strip(a) == ssa.Value(prev) {
+				uses = true
+			}
+		}
+		if !uses {
+			return
+		}
+		for _, a := range all {
+			if al, ok := an.Strip(a).(*ssa.Alloc); ok {
+				fromPrev[al] = true
+			}
+		}
+		if v, ok := in.(ssa.Value); ok {
+			fromPrev[v] = true
+		}
+	})
+	derives := func(v ssa.Value) bool {
+		seen := map[ssa.Value]bool{}
+		var rec func(v ssa.Value, d int) bool
+		rec = func(v ssa.Value, d int) bool {
+			if v == nil || seen[v] || d > 8 {
+				return false
+			}
+			seen[v] = true
+			if fromPrev[v] {
+				return true
+			}
+			if u, ok := v.(*ssa.UnOp); ok && u.Op == token.MUL && fromPrev[u.X] {
+				return true
+			}
+			if in, ok := v.(ssa.Instruction); ok {
+				for _, op := range in.Operands(nil) {
+					if op != nil && *op != nil && rec(*op, d+1) {
+						return true
+					}
+				}
+			}
+			return false
+		}
+		return rec(v, 0)
+	}
+	found := false
+	an.Instrs(fn, func(in ssa.Instruction) {
+		b, ok := in.(*ssa.BinOp)
+		if !ok {
+			return
+		}
+		switch b.Op {
+		case token.LSS, token.LEQ, token.GTR, token.GEQ:
+			if derives(b.X) != derives(b.Y) {
+				found = true
+			}
+		}
+	})
+	c.Check(rule, "attempts-ordered-not-merely-different@makeUniquifier", fn.Pos(), found,
+		"makeUniquifier never compares the previous uniquifier with the clock by order: making the new value merely different from the last one yields T, T+1, T for three attempts within a second, and the third attempt shares its directory and journal name with the first - a late notification of the first attempt is attributed to it")
+}
+
+// M13 (C13): an element's rewritten outputs are recorded even when one of them could not be moved.
+// For a mapped top-level call every fork's outs are moved to outs/<key>/ and the fork's entry in
+// _outs is replaced by the rewritten record; an error for one output is reported, the others have
+// been moved all the same.
+// Rule: in post_process.go no function (or closure) returns, after a call of processStructOuts, the
+// value it passed to that call.
+func ruleM13(s *c13) {
+	c := s.c
+	p := c.P
+	pso := p.Func(pkgCore, "(*Fork).processStructOuts")
+	if pso == nil {
+		c.Info("M13", "anchor((*Fork).processStructOuts)", 0, "not found: not decided")
+		return
+	}
+	n := 0
+	for _, fn := range p.FuncsOf(pkgCore) {
+		for _, cs := range callsTo(fn, pso) {
+			args := cs.Common().Args
+			if len(args) == 0 {
+				continue
+			}
+			input := an.Strip(args[len(args)-1])
+			n++
+			// reachable from the call without starting another iteration of the loop around it
+			var hd *ssa.BasicBlock
+			loops := naturalLoops(fn)
+			for h, body := range loops {
+				if body[cs.Block()] && (hd == nil || len(body) < len(loops[hd])) {
+					hd = h
+				}
+			}
+			sameIter := func(x ssa.Instruction) bool {
+				q := an.Query{Fn: fn, After: cs.(ssa.Instruction), Target: func(y ssa.Instruction) bool { return y == x },
+					BarrierEdge: func(from, to *ssa.BasicBlock) bool { return hd != nil && to == hd }}
+				return q.Find() != nil
+			}
+			var bad *ssa.Return
+			an.Instrs(fn, func(x ssa.Instruction) {
+				ret, ok := x.(*ssa.Return)
+				if !ok || bad != nil || len(ret.Results) == 0 {
+					return
+				}
+				if an.Strip(an.RetVal(ret, 0)) == input && sameIter(x) {
+					bad = ret
+				}
+			})
+			// ... nor stores it into the collection that becomes the new record
+			var badStore ssa.Instruction
+			an.Instrs(fn, func(x ssa.Instruction) {
+				if badStore != nil {
+					return
+				}
+				var val ssa.Value
+				switch y := x.(type) {
+				case *ssa.MapUpdate:
+					val = y.Value
+				case *ssa.Store:
+					if _, isIdx := y.Addr.(*ssa.IndexAddr); isIdx {
+						val = y.Val
+					}
+				}
+				if val != nil && an.Strip(val) == input && sameIter(x) {
+					badStore = x
+				}
+			})
+			pos := cs.Pos()
+			if bad != nil {
+				pos = bad.Pos()
+			} else if badStore != nil {
+				pos = badStore.Pos()
+			}
+			c.Check("M13", "rewritten-element-is-what-is-recorded@"+an.FnName(fn), pos, bad == nil && badStore == nil,
+				"after processStructOuts has moved an element's files, the element's ORIGINAL record is handed on (on an error for one of its outputs): the other outputs have been moved to outs/<key>/ and linked back, but _outs keeps pointing at the stage's files/ paths")
+		}
+	}
+	c.Floor("M13", "calls of processStructOuts", n, 2)
+}
+
+// I8 (C16): a path is "inside" an MROPATH directory only up to a separator.  IncludeFilePath turns
+// the defining file of a callable into the name written after @include in a recorded invocation by
+// stripping the MROPATH entry that contains it.  `strings.HasPrefix(dir, p)` alone also holds for a
+// sibling directory whose name merely starts with p (/x/mro vs /x/mro_ext): the recorded include
+// is then "_ext/stages/defs.mro" and the per-fork invocation no longer compiles.
+// Rule: every return of IncludeFilePath that hands back a tail of the path cut at len(prefix) is
+// dominated by an edge that compares a byte of a path with '/'.
+func ruleI8(c *an.Ctx) {
+	p := c.P
+	fn := p.Func(pkgSyntax, "IncludeFilePath")
+	if fn == nil {
+		c.Info("I8", "anchor(IncludeFilePath)", 0, "not found: not decided")
+		return
+	}
+	isTail := func(v ssa.Value) bool {
+		// a string sliced from a computed offset, here or as the result of a helper of the package
+		seen := map[ssa.Value]bool{}
+		var rec func(v ssa.Value, d int) bool
+		rec = func(v ssa.Value, d int) bool {
+			if v == nil || seen[v] || d > 4 {
+				return false
+			}
+			seen[v] = true
+			switch x := v.(type) {
+			case *ssa.Slice:
+				if x.Low != nil {
+					if _, isC := x.Low.(*ssa.Const); !isC {
+						return true
+					}
+				}
+				return rec(x.X, d+1)
+			case *ssa.Call:
+				if h := x.Call.StaticCallee(); h != nil && h.Blocks != nil && h.Pkg == fn.Pkg {
+					found := false
+					an.Instrs(h, func(in ssa.Instruction) {
+						if ret, ok := in.(*ssa.Return); ok && len(ret.Results) > 0 && rec(ret.Results[0], d+1) {
+							found = true
+						}
+					})
+					return found
+				}
+				for _, a := range x.Call.Args {
+					if rec(a, d+1) {
+						return true
+					}
+				}
+			case *ssa.Phi:
+				for _, e := range x.Edges {
+					if rec(e, d+1) {
+						return true
+					}
+				}
+			}
+			return false
+		}
+		return rec(v, 0)
+	}
+	sepTest := func(r an.Rel) bool {
+		if r.Op != token.EQL {
+			return false
+		}
+		isByte := func(v ssa.Value) bool {
+			switch x := an.Strip(v).(type) {
+			case *ssa.Lookup, *ssa.Index:
+				return true
+			case *ssa.UnOp:
+				_, ok := x.X.(*ssa.IndexAddr)
+				return ok
+			}
+			return false
+		}
+		return (isByte(r.X) && an.IsIntConst(r.Y, '/')) || (isByte(r.Y) && an.IsIntConst(r.X, '/'))
+	}
+	n := 0
+	an.Instrs(fn, func(in ssa.Instruction) {
+		ret, ok := in.(*ssa.Return)
+		if !ok || len(ret.Results) == 0 || !isTail(an.RetVal(ret, 0)) {
+			return
+		}
+		n++
+		g, w := an.GuardedBy(ret, sepTest)
+		c.Check("I8", "path-prefix-ends-at-a-separator@IncludeFilePath", ret.Pos(), g,
+			"IncludeFilePath strips an MROPATH entry from the file's path on a string-prefix match without establishing that the match ends at a path separator: /x/mro also 'contains' /x/mro_ext/stages/defs.mro, the recorded @include becomes _ext/stages/defs.mro and the per-fork invocation mrp records no longer compiles; "+c.WitnessString(w))
+	})
+	c.Floor("I8", "returns of a path tail in IncludeFilePath", n, 2)
+}
+
+// H4 (C18): the assembled job script reaches the submit command as it was assembled.  jobScript
+// quotes every value and substitutes the template once (H1-H3); inside the double quotes the
+// shell takes every byte literally, so any later rewrite of the whole script - normalising line
+// endings, trimming, re-encoding - changes values (an argument containing CR LF loses its CR).
+// Rule: in the functions that call jobScript, what is written to the `jobscript` file and to the
+// submit command's stdin is the result of jobScript, through nothing but conversions and
+// strings.NewReader / bytes.NewReader.
+func ruleH4(c *an.Ctx) {
+	p := c.P
+	js := p.Func(pkgCore, "(*RemoteJobManager).jobScript")
+	if js == nil {
+		c.Info("H4", "anchor((*RemoteJobManager).jobScript)", 0, "not found: not decided")
+		return
+	}
+	n := 0
+	for _, fn := range p.FuncsOf(pkgCore) {
+		calls := callsTo(fn, js)
+		if len(calls) == 0 {
+			continue
+		}
+		// sinks: WriteRaw("jobscript", x) and NewReader(x) feeding Stdin
+		an.Instrs(fn, func(in ssa.Instruction) {
+			cl := an.AsCallAny(in)
+			if cl == nil || cl.Common().StaticCallee() == nil {
+				return
+			}
+			f := cl.Common().StaticCallee()
+			var arg ssa.Value
+			what := ""
+			switch {
+			case (f.Name() == "WriteRaw" || f.Name() == "WriteRawBytes") && len(cl.Common().Args) >= 3 && an.IsStringConst(cl.Common().Args[1], "jobscript"):
+				arg, what = cl.Common().Args[2], "the recorded jobscript"
+			case f.Name() == "NewReader" && f.Pkg != nil && (f.Pkg.Pkg.Path() == "strings" || f.Pkg.Pkg.Path() == "bytes") && len(cl.Common().Args) == 1:
+				arg, what = cl.Common().Args[0], "the submit command's input"
+			default:
+				return
+			}
+			// is the argument the jobScript result, and untouched?
+			v := an.Strip(arg)
+			direct := false
+			for _, cs := range calls {
+				if v == cs.Value() {
+					direct = true
+				}
+			}
+			derived := false
+			if !direct {
+				seen := map[ssa.Value]bool{}
+				var rec func(v ssa.Value, d int)
+				rec = func(v ssa.Value, d int) {
+					if v == nil || seen[v] || d > 8 || derived {
+						return
+					}
+					seen[v] = true
+					for _, cs := range calls {
+						if v == cs.Value() {
+							derived = true
+							return
+						}
+					}
+					if in2, ok := v.(ssa.Instruction); ok {
+						for _, op := range in2.Operands(nil) {
+							if op != nil && *op != nil {
+								rec(*op, d+1)
+							}
+						}
+					}
+				}
+				rec(v, 0)
+			}
+			if !direct && !derived {
+				return
+			}
+			n++
+			c.Check("H4", "assembled-script-submitted-unchanged("+what+")@"+an.FnName(fn), in.Pos(), direct,
+				what+" is derived from the assembled job script through further string operations ("+an.Path(v)+"): every byte between the double quotes is literal to the shell, so rewriting the whole script (line endings, trimming) changes argument, environment or path values")
+		})
+	}
+	c.Floor("H4", "uses of the assembled job script", n, 2)
+}
+
+// N10 (C17): projecting through an array keeps the remaining dimensions.  At a stage boundary
+// LazyArgumentMap.Path / resolvePath walk a value and its type together; for an array value the
+// elements have the array's type with one dimension less (lookup.GetArray(t, -1)), which for
+// T[][] is T[], not T.  Typing the elements by ArrayType.Elem treats the inner arrays as structs
+// ("cannot unmarshal array into LazyArgumentMap") for a binding the compiler accepted.
+// Rule: in the family of LazyArgumentMap.Path a function that reads ArrayType.Elem also reads
+// ArrayType.Dim.
+func ruleN10(c *an.Ctx) {
+	p := c.P
+	elem := p.Field(pkgSyntax, "ArrayType", "Elem")
+	dim := p.Field(pkgSyntax, "ArrayType", "Dim")
+	root := p.Func(pkgCore, "(LazyArgumentMap).Path")
+	rp := p.Func(pkgCore, "resolvePath")
+	if elem == nil || dim == nil || root == nil {
+		c.Info("N10", "anchor((LazyArgumentMap).Path)", 0, "not found: not decided")
+		return
+	}
+	fns := familyOf(p, root, 2)
+	if rp != nil {
+		fns = append(fns, familyOf(p, rp, 2)...)
+	}
+	seen := map[*ssa.Function]bool{}
+	n := 0
+	for _, fn := range fns {
+		if seen[fn] {
+			continue
+		}
+		seen[fn] = true
+		n++
+		readsElem, readsDim := false, false
+		var pos token.Pos
+		for _, g := range an.WithAnon(fn) {
+			an.Instrs(g, func(in ssa.Instruction) {
+				if fa, ok := in.(*ssa.FieldAddr); ok {
+					if _, f := an.FieldOfAddr(fa); f == elem {
+						readsElem = true
+						if pos == token.NoPos {
+							pos = in.Pos()
+						}
+					} else if f == dim {
+						readsDim = true
+					}
+				}
+			})
+		}
+		if !readsElem {
+			continue
+		}
+		c.Check("N10", "array-projection-keeps-remaining-dimensions@"+an.FnName(fn), pos, readsDim,
+			"the function types the elements of an array value by ArrayType.Elem without looking at ArrayType.Dim: for T[][] the inner arrays are resolved as if they were T, and a projection through a multi-dimensional array that the compiler accepted fails when the consumer's arguments are resolved")
+	}
+	if n > 0 {
+		c.Pass("N10", "array-projection-family-examined", root.Pos(), "functions of the projection family examined")
+	}
+}
+
+// G12 (C19): top-call pipelines leave the set of trim candidates only after every top call's
+// children were added.  RemoveUnusedOutputs first adds the pipelines called (transitively) by the
+// top calls to the candidates and then takes the top calls themselves out again - a top call may
+// be another top call's child.  Doing both in one pass lets a later top call put an earlier one
+// back, and the earlier one loses the outputs its caller does not bind.
+// Rule: the removal of a top call from the candidate map is not in the same innermost loop as the
+// call that adds children.
+func ruleG12(c *an.Ctx) {
+	p := c.P
+	fn := p.Func(pkgRefac, "RemoveUnusedOutputs")
+	pop := p.Func(pkgRefac, "populateChildPipelineOuts")
+	if fn == nil || pop == nil {
+		c.Info("G12", "anchor(RemoveUnusedOutputs/populateChildPipelineOuts)", 0, "not found: not decided")
+		return
+	}
+	n := 0
+	for _, m := range familyOf(p, fn, 1) {
+		loops := naturalLoops(m)
+		inner := func(b *ssa.BasicBlock) *ssa.BasicBlock {
+			var hd *ssa.BasicBlock
+			for h, body := range loops {
+				if body[b] && (hd == nil || len(body) < len(loops[hd])) {
+					hd = h
+				}
+			}
+			return hd
+		}
+		var popLoops []*ssa.BasicBlock
+		for _, cs := range callsTo(m, pop) {
+			popLoops = append(popLoops, inner(cs.Block()))
+		}
+		if len(popLoops) == 0 {
+			continue
+		}
+		an.Instrs(m, func(in ssa.Instruction) {
+			v, ok := in.(ssa.Value)
+			if !ok {
+				return
+			}
+			if _, isDel := an.IsBuiltinCall(v, "delete"); !isDel {
+				return
+			}
+			n++
+			same := false
+			for _, h := range popLoops {
+				if h != nil && h == inner(in.Block()) {
+					same = true
+				}
+			}
+			c.Check("G12", "top-calls-removed-after-all-children-were-added@"+an.FnName(m), in.Pos(), !same,
+				"a top-call pipeline is taken out of the trim candidates in the same pass that adds the children of the top calls: a top call that is also called by a later top call is put back and loses the outputs its caller does not bind - the call graph of a pipeline listed in --top-calls changes")
+		})
+	}
+	c.Floor("G12", "removals from the trim candidates next to the population of children", n, 1)
+}
+
+// P8 (C08): the error that parsing hands back contains no empty slots.  Include processing appends
+// nil for every include that parsed; ErrorList.If is what flattens the list and drops the nils,
+// and the renderers (Error, writeTo) dereference every element.
+// Rule: ErrorList.If never returns, as a list, a slice derived from its receiver - only lists it
+// built from the non-nil elements (or the result of a nested If).
+func ruleP8(c *an.Ctx) {
+	p := c.P
+	fn := p.Func(pkgSyntax, "(ErrorList).If")
+	if fn == nil || len(fn.Params) == 0 {
+		c.Info("P8", "anchor((ErrorList).If)", 0, "not found: not decided")
+		return
+	}
+	recv := fn.Params[0]
+	fromRecv := func(v ssa.Value) bool {
+		seen := map[ssa.Value]bool{}
+		var rec func(v ssa.Value, d int) bool
+		rec = func(v ssa.Value, d int) bool {
+			if v == nil || seen[v] || d > 8 {
+				return false
+			}
+			seen[v] = true
+			switch x := v.(type) {
+			case *ssa.Parameter:
+				return x == recv
+			case *ssa.Phi:
+				for _, e := range x.Edges {
+					if rec(e, d+1) {
+						return true
+					}
+				}
+			case *ssa.Slice:
+				return rec(x.X, d+1)
+			case *ssa.ChangeType:
+				return rec(x.X, d+1)
+			}
+			return false
+		}
+		return rec(v, 0)
+	}
+	n := 0
+	an.Instrs(fn, func(in ssa.Instruction) {
+		ret, ok := in.(*ssa.Return)
+		if !ok || len(ret.Results) == 0 {
+			return
+		}
+		mi, ok := ret.Results[0].(*ssa.MakeInterface)
+		if !ok {
+			return
+		}
+		if _, isSlice := mi.X.Type().Underlying().(*types.Slice); !isSlice {
+			return
+		}
+		n++
+		c.Check("P8", "returned-error-list-is-freshly-filtered@(ErrorList).If", ret.Pos(), !fromRecv(mi.X),
+			"ErrorList.If hands back (a sub-slice of) the list it was called on: only the leading and trailing nil entries were trimmed, so a list like [err, nil, err] - a good include between two failing ones - is returned with the nil in it and rendering the error dereferences it (mro check dies with SIGSEGV instead of printing located errors)")
+	})
+	c.Floor("P8", "returns of a list from ErrorList.If", n, 1)
+}
+
+// K9 (C12): what the job manager itself uses is not booked against the jobs.  refreshResources
+// measures the memory of mrp's process tree and tells the memory semaphore how much is really in
+// use, which can shrink the grantable capacity.  If the measurement includes mrp's own process,
+// an idle manager "uses" memory that no job reserved: the capacity is capped below the limit on
+// every refresh and a job whose clamped request equals the limit waits for ever.
+// Rule: every GetProcessTreeMemory call whose result reaches UpdateFreeUsed is made with
+// includeParent == false.
+func ruleK9(c *an.Ctx) {
+	p := c.P
+	gm := p.Func(pkgCore, "GetProcessTreeMemory")
+	if gm == nil {
+		c.Info("K9", "anchor(GetProcessTreeMemory)", 0, "not found: not decided")
+		return
+	}
+	n := 0
+	for _, fn := range coreFns(c) {
+		an.Instrs(fn, func(in ssa.Instruction) {
+			cl := an.AsCallAny(in)
+			if cl == nil || cl.Common().StaticCallee() == nil || cl.Common().StaticCallee().Name() != "UpdateFreeUsed" {
+				return
+			}
+			// measurement calls in the backward slice of the arguments (helpers' returns included)
+			seen := map[ssa.Value]bool{}
+			var calls []*ssa.Call
+			var rec func(v ssa.Value, d int)
+			rec = func(v ssa.Value, d int) {
+				if v == nil || seen[v] || d > 12 {
+					return
+				}
+				seen[v] = true
+				if c2, ok := v.(*ssa.Call); ok {
+					if h := c2.Call.StaticCallee(); h == gm {
+						calls = append(calls, c2)
+						return
+					} else if h != nil && h.Blocks != nil && h.Pkg == fn.Pkg {
+						an.Instrs(h, func(x ssa.Instruction) {
+							if ret, ok := x.(*ssa.Return); ok {
+								for _, r := range ret.Results {
+									rec(r, d+1)
+								}
+							}
+						})
+					}
+				}
+				if al, ok := v.(*ssa.Alloc); ok {
+					// a struct result kept in a local: what was stored into it
+					for _, r := range an.Referrers(al) {
+						if st, isSt := r.(*ssa.Store); isSt && st.Addr == ssa.Value(al) {
+							rec(st.Val, d+1)
+						}
+					}
+				}
+				if in2, ok := v.(ssa.Instruction); ok {
+					for _, op := range in2.Operands(nil) {
+						if op != nil && *op != nil {
+							rec(*op, d+1)
+						}
+					}
+				}
+			}
+			for _, a := range cl.Common().Args[1:] {
+				rec(a, 0)
+			}
+			for _, m := range calls {
+				n++
+				ok := len(m.Call.Args) >= 2
+				if ok {
+					cv, isC := an.ConstVal(m.Call.Args[1])
+					ok = isC && cv.Kind() == constant.Bool && !constant.BoolVal(cv)
+				}
+				c.Check("K9", "own-process-not-booked-against-jobs@"+an.FnName(fn), m.Pos(), ok,
+					"the memory measurement that tells the semaphore how much is in use includes the job manager's own process: with nothing running the grantable capacity is capped below the limit on every refresh, and the oldest waiting job - whose clamped request equals the limit - is never granted although it fits")
+			}
+		})
+	}
+	c.Floor("K9", "memory measurements feeding UpdateFreeUsed", n, 1)
 }
